@@ -389,6 +389,35 @@ fn parts(tier: Tier) -> Vec<SPart> {
         part: Part { name: "ES-F macro shapes", family: gen::es_f(2), cfgs: gen::cfgs(&[ALL_MODES, 1], &[d], &both, &both) },
         strong: true,
     });
+    v.push(SPart {
+        part: Part { name: "ES-F macro shapes x small single lists", family: gen::es_f(2), cfgs: gen::cfgs(&[ALL_MODES], &[sq(10, 10), sq(12, 12), sq(8, 18), sq(14, 14), sq(16, 16)], &both, &[false]) },
+        strong: true,
+    });
+    v.push(SPart {
+        part: Part {
+            name: "W: macro envelopes with bodies at the capacity of the largest symbol",
+            family: {
+                let mut l = Vec::new();
+                for head in [gen::MACRO05, gen::MACRO06] {
+                    for n in 3100..=3118usize {
+                        let mut x = head.to_vec();
+                        x.extend(std::iter::repeat(b'1').take(n));
+                        x.extend_from_slice(gen::MACRO_TRAIL);
+                        l.push(x);
+                    }
+                    for n in 14..=24usize {
+                        let mut x = head.to_vec();
+                        x.extend(std::iter::repeat(b'1').take(n));
+                        x.extend_from_slice(gen::MACRO_TRAIL);
+                        l.push(x);
+                    }
+                }
+                Family::list(l)
+            },
+            cfgs: gen::cfgs(&[ALL_MODES], &[d, sq(16, 16), sq(14, 14)], &both, &off),
+        },
+        strong: false,
+    });
     if tier == Tier::Thorough {
         v.push(SPart {
             part: Part { name: "T: ES-B sigma10 6..7", family: Family::Over { alpha: SIGMA10.to_vec(), min: 6, max: 7 }, cfgs: gen::cfgs(&[ALL_MODES], &[d, a, sq(16, 16), sq(12, 26), sq(18, 18)], &on, &off) },
